@@ -58,7 +58,8 @@ func (c IDCase) udpBuffer() int {
 type IDRep struct {
 	Size int    // size of the reply in octets (0 = 36)
 	Kind string // match | foreign | stale | dup (repeats the previous reply) | foreign-malformed (foreign ID, header intact, body cut short)
-	//             | runt (round 9: the first Size = 0..11 octets of a reply with a foreign ID - shorter than a DNS header)
+	//             | runt (round 9: the first Size = 0..11 octets of a reply with a foreign ID - shorter than a DNS header;
+	//               round 10 also over a stream, as the first frame: no reply, and the frame after it begins where its length says)
 	ID uint16 // ID carried (for match = the request's ID)
 }
 
@@ -116,8 +117,13 @@ func genIDCase(stream bool) func(t *rapid.T) IDCase {
 			} else {
 				c.Replies = []IDRep{{Kind: "foreign", ID: foreign("fid")}}
 			}
+			runtFirst := rapid.IntRange(0, 5).Draw(t, "runtFirst") == 0
+			if runtFirst {
+				// the peer answers with a frame that is too short to be a DNS message
+				c.Replies = []IDRep{{Kind: "runt", ID: foreign("rid"), Size: rapid.SampledFrom([]int{0, 1, 2, 3, 5, 10, 11}).Draw(t, "runtLen")}}
+			}
 			// a second message may already be queued behind the first: it must not be consumed instead
-			if rapid.IntRange(0, 2).Draw(t, "second") > 0 {
+			if rapid.IntRange(0, 2).Draw(t, "second") > 0 || runtFirst {
 				c.Replies = append(c.Replies, IDRep{Kind: "match", ID: c.ID})
 			}
 			c.Chunks = genChunks(t, "chunk")
@@ -128,7 +134,13 @@ func genIDCase(stream bool) func(t *rapid.T) IDCase {
 			c.Coalesce = rapid.Bool().Draw(t, "coalesce")
 			if len(c.Replies) > 1 {
 				c.After = rapid.SampledFrom([]string{"", "ReadMsg", "ReadMsgHeader", "Read", "Read"}).Draw(t, "after")
+				if runtFirst && c.After == "" {
+					c.After = "Exchange" // a second exchange over the same connection (connection reuse)
+				}
 				for i := range c.Replies {
+					if c.Replies[i].Kind == "runt" {
+						continue
+					}
 					if rapid.Bool().Draw(t, "replySized") {
 						c.Replies[i].Size = rapid.SampledFrom([]int{36, 37, 255, 256, 511, 512, 513, 4096, 4097}).Draw(t, "replySize")
 					}
@@ -231,6 +243,14 @@ func idReplySized(id uint16, ordinal, size int) []byte {
 	return b
 }
 
+// replyOctets is what the peer sends as reply i: the sized reply, or - kind runt - its first Size (0..11) octets.
+func replyOctets(r IDRep, i int) []byte {
+	if r.Kind == "runt" {
+		return idReplySized(r.ID, i, 0)[:min(max(r.Size, 0), 11)]
+	}
+	return idReplySized(r.ID, i, r.Size)
+}
+
 func replyOrdinal(m *dns.Msg) int {
 	if m == nil || len(m.Answer) != 1 {
 		return -1
@@ -288,7 +308,9 @@ func checkID(c IDCase) error {
 			if c.OneWrite || c.Coalesce {
 				cl = append(cl, "next-message-taken-with-"+c.After+",coalesced")
 			}
-			if c.Replies[0].ID != c.ID {
+			if c.Replies[0].Kind == "runt" {
+				cl = append(cl, "next-message-taken-after-a-short-frame", "next-message-taken-after-a-short-frame,with-"+c.After)
+			} else if c.Replies[0].ID != c.ID {
 				cl = append(cl, "next-message-taken-after-ErrId")
 			}
 		}
@@ -334,7 +356,7 @@ func runID(c IDCase, firstMatch int) error {
 		b.SetPlan(memnet.StreamPlan{Coalesce: c.Coalesce})
 		var all []byte
 		for i, r := range c.Replies {
-			f := frame(idReplySized(r.ID, i, r.Size))
+			f := frame(replyOctets(r, i))
 			if c.OneWrite {
 				all = append(all, f...)
 			} else {
@@ -369,9 +391,28 @@ func runID(c IDCase, firstMatch int) error {
 		a.CloseWrite()
 		b.SetDeadline(time.Now().Add(hangLimit))
 		want := idReplySized(c.Replies[1].ID, 1, c.Replies[1].Size)
-		how := fmt.Sprintf("after the %s exchange (result: %v) took reply #0 (%d octets), %s of the next message on the same connection (reply #1, %d octets, queued behind it; one Write call: %v, chunks %v, reads coalesce: %v)", entryName(c.API), err, len(idReplySized(c.Replies[0].ID, 0, c.Replies[0].Size)), c.After, len(want), c.OneWrite, c.Chunks, c.Coalesce)
+		how := fmt.Sprintf("after the %s exchange (result: %v) took reply #0 (%d octets), %s of the next message on the same connection (reply #1, %d octets, queued behind it; one Write call: %v, chunks %v, reads coalesce: %v)", entryName(c.API), err, len(replyOctets(c.Replies[0], 0)), c.After, len(want), c.OneWrite, c.Chunks, c.Coalesce)
 		var got []byte
 		switch c.After {
+		case "Exchange":
+			// the caller uses the connection for its next exchange: the reply is reply #1
+			if c.Replies[1].ID != c.ID {
+				return fmt.Errorf("malformed case: After Exchange needs a second reply with the request's ID")
+			}
+			var m *dns.Msg
+			var e error
+			if c.API == "ExchangeConn" {
+				m, e = dns.ExchangeConn(b, q)
+			} else {
+				m, _, e = (&dns.Client{Net: "tcp", Timeout: 10 * time.Second}).ExchangeWithConn(q, co)
+			}
+			if e != nil {
+				return fmt.Errorf("%s failed: %v", how, e)
+			}
+			if m == nil || m.Id != c.ID || replyOrdinal(m) != 1 || len(m.Answer) != 1 || m.Answer[0].(*dns.NULL).Data != string(want[fullOverhead:]) {
+				return fmt.Errorf("%s returned another message: reply #%d", how, replyOrdinal(m))
+			}
+			return nil
 		case "ReadMsg":
 			m, e := co.ReadMsg()
 			if e != nil {
@@ -414,6 +455,13 @@ func entryName(api string) string {
 
 // idStreamVerdict decides the stream exchange itself: the first reply is the reply; another ID is ErrId.
 func idStreamVerdict(c IDCase, rep *dns.Msg, err error) error {
+	if c.Replies[0].Kind == "runt" {
+		// a frame of 0..11 octets is no reply at all: the exchange has nothing to return
+		if err == nil {
+			return fmt.Errorf("stream exchange (%s): the peer answered with a frame of %d octets (%x), fewer than a DNS header, and the exchange reported success (reply #%d)", c.API, len(replyOctets(c.Replies[0], 0)), replyOctets(c.Replies[0], 0), replyOrdinal(rep))
+		}
+		return nil
+	}
 	if c.Replies[0].ID == c.ID {
 		if err != nil {
 			return fmt.Errorf("stream exchange (%s) with a matching reply failed: %v", c.API, err)
